@@ -508,6 +508,46 @@ def basis_tables(enc):
     return names, rot
 
 
+def reserved_words():
+    """keyword literals of the lexer that the importer really uses (openqasm3's ANTLR lexer)"""
+    from openqasm3._antlr import qasm3Lexer
+    L = qasm3Lexer.qasm3Lexer
+    names = [n.strip("'") for n in L.literalNames if n != "<INVALID>"]
+    return [n for n in names if re.fullmatch(r"[A-Za-z_][A-Za-z0-9_]*", n)]
+
+
+TOKEN_RE = re.compile(r"""
+    (?P<ws>\s+) | (?P<comment>//[^\n]*) | (?P<str>"[^"\n]*") | (?P<arrow>->)
+  | (?P<flt>-?(?:\d+\.\d*(?:[eE][+-]?\d+)?|\.\d+(?:[eE][+-]?\d+)?|\d+[eE][+-]?\d+))
+  | (?P<nat>\d+) | (?P<id>[A-Za-z_][A-Za-z0-9_]*) | (?P<punct>[()\[\],;]) | (?P<bad>.)
+""", re.X | re.S)
+PUNCT = {"(": "TLPar", ")": "TRPar", "[": "TLBr", "]": "TRBr", ",": "TComma", ";": "TSemi"}
+
+
+def lex_qasm(text):
+    """generic lexer of an OpenQASM text -> list of Coq token terms (independent of the writer's line shapes)"""
+    out = []
+    for m in TOKEN_RE.finditer(text):
+        k, v = m.lastgroup, m.group()
+        if k in ("ws", "comment"):
+            continue
+        if k == "str":
+            out.append(f"TStr {cstr(v[1:-1])}")
+        elif k == "arrow":
+            out.append("TArrow")
+        elif k == "flt":
+            out.append(f"TFlt {fbits(float(v))}")
+        elif k == "nat":
+            out.append(f"TNat {int(v)}%nat")
+        elif k == "id":
+            out.append(f"TId {cstr(v)}")
+        elif k == "punct":
+            out.append(PUNCT[v])
+        else:
+            out.append(f"TBad {cstr(v)}")
+    return clist(out)
+
+
 def gen_tables(run):
     """write _build/C13/Gen.v; returns the python-side view of the tables"""
     from qibo.gates import abstract
@@ -518,7 +558,7 @@ def gen_tables(run):
     bases, rot = basis_tables(enc)
     required = list(abstract.REQUIRED_FIELDS_INIT_KWARGS)
     txt = ["(* generated by harness/c13.py from the qibo tree at " + vcore.REPO + " -- do not edit *)",
-           "From Coq Require Import String List ZArith Bool.", "From QV Require Import C13.Model.",
+           "From Coq Require Import String List ZArith Bool.", "From QV Require Import C13.Model C13.TextModel.",
            "Import ListNotations.", "Local Open Scope string_scope.", "Local Open Scope Z_scope.", ""]
     for r in rows:
         txt.append(f"Definition row_{r['name']} : row := {coq_row(r)}.")
@@ -530,6 +570,11 @@ def gen_tables(run):
     for n, g in rot:
         txt.append(f"  if String.eqb b {cstr(n)} then {('Some ' + g) if g else 'None'} else")
     txt.append("  None.")
+    from qibo.gates import abstract as _abs
+    txt.append("Definition reserved : list string := " + clist([cstr(b) for b in reserved_words()]) + ".")
+    txt.append("Definition required_fields : list string := " + clist([cstr(b) for b in _abs.REQUIRED_FIELDS]) + ".")
+    txt += ["Definition print_qasm' := print_qasm rows.", "Definition parse_qasm' := parse_qasm reserved.",
+            "Definition name_ok' := name_ok reserved."]
     txt += ["Definition construct' := construct bases.",
             "Definition from_dict' := from_dict rows bases.",
             "Definition raw' := raw required_kw.",
@@ -546,7 +591,7 @@ def gen_tables(run):
             "ok": ok, "log": out}
 
 
-HEADER = ("From Coq Require Import String List ZArith Bool.\nFrom QV Require Import C13.Model.\n"
+HEADER = ("From Coq Require Import String List ZArith Bool.\nFrom QV Require Import C13.Model C13.TextModel.\n"
           "Require Import Gen.Gen.\nImport ListNotations.\nLocal Open Scope string_scope.\nLocal Open Scope Z_scope.\n")
 
 
@@ -907,27 +952,33 @@ def qasm_model_checks(batch, label, spec):
         if type(e).__name__ in ERRS:
             batch.check(label + ":write", f"is_err {ERRS[type(e).__name__]} (write' {dC})", spec)
         return
-    try:
-        stm = parse_writer_text(text, enc)
-    except ValueError:
-        stm = None
-    if stm is None:
-        return
-    dS = batch.define(stm)
-    batch.check(label + ":write", f"res_eqb (list_eqb stmt_eqb) (write' {dC}) (OK {dS})", spec)
+    # ---- text layer: the real text is tokenised by a generic lexer; the model printer must emit exactly these
+    # tokens, the model parser must turn them into the writer's statements, and Model.read of those statements
+    # must be the circuit that the real from_qasm builds
+    toks = lex_qasm(text)
+    dT = batch.define(toks, "list tok")
+    plain_names = all(PLAIN_ID.match(str(r)) for r in c.measurement_tuples)
+    if plain_names:
+        batch.check(label + ":print", f"res_eqb (list_eqb tok_eqb) (print_qasm' {dC}) (OK {dT})", spec)
     try:
         with warnings.catch_warnings():
             warnings.simplefilter("ignore")
             c2 = Circuit.from_qasm(text)
     except Exception as e:
-        if type(e).__name__ in ERRS:
-            batch.check(label + ":read", f"is_err {ERRS[type(e).__name__]} (read' {dS})", spec)
+        if type(e).__name__ == "QASM3ParsingError":      # rejected by the real lexer/parser: the model's must reject too
+            batch.check(label + ":parse", f"is_err EValueError (parse_qasm' {dT})", spec)
+        elif type(e).__name__ in ERRS:
+            batch.check(label + ":read", f"is_err {ERRS[type(e).__name__]} (rbind (parse_qasm' {dT}) read')", spec)
         return
+    batch.check(label + ":parse", f"res_eqb (list_eqb stmt_eqb) (parse_qasm' {dT}) (write' {dC})", spec)
     try:
         C2 = enc.circuit(c2)
     except Exception:
         return
-    batch.check(label + ":read", f"res_eqb circuit_eqb (read' {dS}) (OK {C2})", spec)
+    batch.check(label + ":read", f"res_eqb circuit_eqb (rbind (parse_qasm' {dT}) read') (OK {C2})", spec)
+
+
+PLAIN_ID = re.compile(r"^[A-Za-z_][A-Za-z0-9_]*$")
 
 
 def placement(k, variant=0):
@@ -1234,6 +1285,8 @@ def gate_dict_model_checks(batch, label, spec):
         return
     dW = batch.define(enc.raw(d))
     batch.check(label + ":raw", f"graw_eqb (raw' {dG}) {dW}", spec)
+    batch.check(label + ":keys", "list_eqb String.eqb (gate_raw_keys required_fields "
+                + ("true" if type(g).__name__ == "M" else "false") + ") " + clist([cstr(k) for k in d.keys()]), spec)
     images = [("raw", d)]
     try:
         images.append(("json", json.loads(json.dumps(d))))
@@ -1406,6 +1459,8 @@ def circuit_dict_model_checks(batch, label, spec):
     d = c.raw
     W = "(" + cz(d["nqubits"]) + ", " + ("true" if d["density_matrix"] else "false") + ", " + clist([enc.raw(g) for g in d["queue"]]) + ")"
     dW = batch.define(W, "(Z * bool * list graw)%type")
+    batch.check(label + ":keys", "list_eqb String.eqb circuit_raw_keys " + clist([cstr(k) for k in d.keys()])
+                + " && keys_subset circuit_from_dict_reads circuit_raw_keys", spec)
     batch.check(label + ":craw", f"let '(n, dm, q) := craw' {dC} in let '(n2, dm2, q2) := {dW} in (n =? n2) && Bool.eqb dm dm2 && list_eqb graw_eqb q q2", spec)
     try:
         with warnings.catch_warnings():
@@ -1843,7 +1898,7 @@ def table_theorems(run, tab, sweep_findings):
     for n, r in rows.items():
         if r["label"] is not None:
             items.append((f"label:{n}", f"label_row_ok rows specials row_{n}"))
-    tri, _ = run.coq_bools("tables_triage.v", HEADER + "From QV Require Import C13.Proofs.\n", items)
+    tri, _ = run.coq_bools("tables_triage.v", HEADER + "From QV Require Import C13.Proofs C13.TextProofs C13.Props.\n", items)
     if tri is None:
         run.oblige("tables_triage", False, "generated")
         run.find("tables:triage", "the table checks do not compile against the generated tables", {"log": run.notes.get("coq_errors")}, concrete=False)
@@ -1872,6 +1927,21 @@ def table_theorems(run, tab, sweep_findings):
                  "/\\ Forall2 gate_equiv (filter nonM (cqueue c)) gs' /\\ Forall (fun g => is_M g = false) gs' "
                  "/\\ measurement_tuples c' = measurement_tuples c",
                  "exact (qasm_roundtrip_checked rows bases specials rotation tables_M_ok all_class_facts)."))
+    lab_script = ("intros r l Hin Hl. repeat (destruct Hin as [<-|Hin]; [try discriminate Hl; injection Hl as <-; reflexivity|]). destruct Hin.")
+    thms.append(("text_keywords_reserved", "forallb (fun k => mem_str k reserved) grammar_keywords = true", "vm_compute; reflexivity."))
+    thms.append(("text_q_is_a_name", "name_ok reserved \"q\" = true", "vm_compute; reflexivity."))
+    thms.append(("text_labels_are_names", "forall r l, In r rows -> rlabel r = Some l -> name_ok reserved l = true", lab_script))
+    thms.append(("qasm_text_roundtrip_generated_tables",
+                 "forall c mt toks, qasm_exportable rows specials c mt -> text_exportable reserved c -> print_qasm' c = OK toks -> "
+                 "exists s c' gs', parse_qasm' toks = OK s /\\ read' s = OK c' /\\ cn c' = cn c /\\ cqueue c' = (gs' ++ map MG mt)%list "
+                 "/\\ cmeas c' = seq (length gs') (length mt) "
+                 "/\\ Forall2 gate_equiv (filter nonM (cqueue c)) gs' /\\ Forall (fun g => is_M g = false) gs' "
+                 "/\\ measurement_tuples c' = measurement_tuples c",
+                 "exact (qasm_text_roundtrip_partial reserved rows bases specials rotation text_keywords_reserved text_q_is_a_name "
+                 "text_labels_are_names tables_M_ok all_class_facts)."))
+    thms.append(("dict_keys_read_are_written_generated",
+                 "forall is_m, keys_subset (from_dict_reads is_m) (gate_raw_keys required_fields is_m) = true",
+                 "apply dict_keys_read_are_written; vm_compute; reflexivity."))
     thms.append(("name_table_ok_partial",
                  f"forallb (fun r => match rlabel r with None => true | Some _ => label_row_ok rows specials r || mem_str (rname r) {nm(bad_labels)} end) rows = true",
                  "vm_compute; reflexivity."))
@@ -1928,7 +1998,7 @@ def table_theorems(run, tab, sweep_findings):
             run.refuted.append(f"raw_roundtrip_{n}")
             if not any(k.startswith("raw:") and k.split(":")[2].split(".")[0] == n for k in sweep_findings):
                 run.find(f"raw_table:{n}", f"model says Gate.raw of {n} does not round trip but the real run did not fail", {"class": n}, concrete=False)
-    T_ok, out = run.coq_theorems("table_theorems.v", HEADER + "From QV Require Import C13.Proofs.\n", thms, timeout=900)
+    T_ok, out = run.coq_theorems("table_theorems.v", HEADER + "From QV Require Import C13.Proofs C13.TextProofs C13.Props.\n", thms, timeout=900)
     if T_ok:
         for t in thms:
             run.oblige(t[0], True, "generated-table-theorem")
@@ -1936,7 +2006,8 @@ def table_theorems(run, tab, sweep_findings):
         # find which ones fail: each theorem alone, preceded by the (passing) theorems it uses
         by_name = {t[0]: t for t in thms}
         deps = {"all_class_facts": [f"label_class_{n}" for n in good_labels],
-                "qasm_roundtrip_generated_tables": [f"label_class_{n}" for n in good_labels] + ["tables_M_ok", "all_class_facts"]}
+                "qasm_roundtrip_generated_tables": [f"label_class_{n}" for n in good_labels] + ["tables_M_ok", "all_class_facts"],
+                "qasm_text_roundtrip_generated_tables": [f"label_class_{n}" for n in good_labels] + ["tables_M_ok", "all_class_facts", "text_keywords_reserved", "text_q_is_a_name", "text_labels_are_names"]}
         status = {}
         for t in thms:
             need = deps.get(t[0], [])
@@ -1944,7 +2015,7 @@ def table_theorems(run, tab, sweep_findings):
                 status[t[0]] = False
                 run.oblige(t[0], False, "generated-table-theorem")
                 continue
-            ok1, _ = run.coq_theorems(f"thm_{t[0]}.v", HEADER + "From QV Require Import C13.Proofs.\n", [by_name[d] for d in need] + [t], timeout=300)
+            ok1, _ = run.coq_theorems(f"thm_{t[0]}.v", HEADER + "From QV Require Import C13.Proofs C13.TextProofs C13.Props.\n", [by_name[d] for d in need] + [t], timeout=300)
             status[t[0]] = ok1
             run.oblige(t[0], ok1, "generated-table-theorem")
             if not ok1:
@@ -1972,7 +2043,8 @@ def run_all(run):
     T = {}
     run.trusted += ["Coq 8.16.1 kernel, vm_compute", "harness/c13.py introspection that regenerates the class table, the label table, "
                     "REQUIRED_FIELDS_INIT_KWARGS and the _qibo_gate_name cases from /repo on every run",
-                    "text layer NOT modelled: str(float), openqasm3 lexer/parser, json, np.save/np.load (exercised by the real round trips only)",
+                    "QASM text: modelled as the token stream of a generic lexer (harness lex_qasm; identifiers, integer / float / string literals, punctuation); the model printer must emit exactly the tokens of the real to_qasm() text and the model parser must accept/reject like openqasm3 on these texts (compared on every export of the run). Characters inside a token (float repr digits, decimal integers) and json / np.save / np.load are NOT modelled (exercised by the real round trips only)",
+                    "reserved words: keyword literals read from openqasm3's ANTLR lexer on every run",
                     "the Python encoder of real objects into Coq terms (Enc) used for the model-vs-implementation comparisons"]
     run.assumptions += ["a float is identified with its binary64 bit pattern; printing and re-parsing a float is the identity (checked on every exported parameter of the sweep, not proved)",
                         "constructor value constraints (MS theta range, bit-flip dictionaries) are outside the model",
@@ -2045,7 +2117,7 @@ def main(run):
     run.not_proved += ["qasm_roundtrip (full): refuted by collapsing measurements (qasm_roundtrip_refuted) and by the iSWAP label; proved: qasm_roundtrip_partial",
                        "circuit_dict_roundtrip (full): refuted by measurement bases other than Z (circuit_dict_roundtrip_refuted); proved: circuit_dict_roundtrip_partial (per-gate hypothesis discharged by raw_roundtrip_<C> / M_raw_dict_roundtrip)",
                        "result_roundtrip (full): refuted when only frequencies were computed (result_roundtrip_refuted)",
-                       "text layer (float printing/parsing, openqasm3, json, numpy files), custom gate definitions and parameter expressions: exercised by the real round trips, not proved"]
+                       "below the token level (digits of float repr / integers; the openqasm3 lexer itself), json and numpy files, custom gate definitions and parameter expressions: exercised by the real round trips, not proved; the token-level text round trip is proved (qasm_text_roundtrip_partial, refuted for non-identifier register names)"]
     return run.finish(level="proof", rule=RULE)
 
 
@@ -2313,7 +2385,7 @@ def suite_custom_gates(run, rng, T):
                      + f" from_qasm than its OpenQASM expansion: {d2 or detail}",
                      {"suite": "custom_gate", "program": small, "text": t2, "category": cat, "detail": d2 or detail})
     T["custom_gate_stats"] = dict(stats, programs=len(progs), top_level_arguments_equal_to_zero=zero_calls)
-    T["custom_gate_generator_exclusions"] = ["`ms` with a forwarded parameter inside a gate body: MS.__init__ range-checks the placeholder string -> 'Invalid gate declaration' on the clean tree (importer limitation, outside the export->import rule)",
+    T["custom_gate_generator_exclusions"] = ["`ms` with a forwarded parameter inside a gate body: MS.__init__ range-checks the placeholder string -> 'Invalid gate declaration' on the clean tree. Decision: NOT a C13 violation -- Circuit.to_qasm never writes `gate` definitions, so no exported text can contain it (hand-written QASM is outside the export->import rule); recorded here as an importer limitation and left out of the generator",
                                              "expressions of formal parameters inside bodies (kept as strings by the importer, see importer_observations_outside_property_text)",
                                              "formal names that python's eval() resolves inside QASMParser._get_gate (gate, arg, qubits, ...) or that contain 'pi'"]
     run.oblige("user-defined gate programs (nested definitions, forwarded parameters, zero-valued arguments) were imported and compared with their expansion",
